@@ -346,6 +346,28 @@ class SinkExec:
         elif kind == 'select':
             # somebody looks at one connection only (or at all again): what the others do is still announced and recorded
             self.ctl.process_command('connection ' + op[1])
+            if op[1] == 'all':
+                self.sel = None
+            else:
+                hit = [m for m in self.all if m['name'].lower() == op[1].lower()]
+                if hit:
+                    self.sel = hit[0]['name']      # a name that denotes no connection is refused and changes nothing
+            return 0
+        elif kind == 'rows':
+            # the list of connections: one row each, in order of appearance - marker of the selected one, name, role, state, count
+            self.ctl.process_command('connection')
+            rows = [l for l in self.out.buffer[n0:].split('\n')[:-1]]
+            want = []
+            for m in self.all:
+                role = 'server' if m['role'] is True else 'client' if m['role'] is False else 'unknown type'
+                want.append('%s%s (%s%s): %s, %d messages' % (' => ' if getattr(self, 'sel', None) == m['name'] else '    ', m['name'], role,
+                                                               '' if m['open'] else ', closed', 'open' if m['open'] else 'closed', m['msgs']))
+            if not self.all:
+                want = ['No connections yet']
+            if rows != want:
+                k = next((i for i, (a, b) in enumerate(zip(rows, want)) if a != b), min(len(rows), len(want)))
+                res.bad('sink:connection-rows', '`connection` row %d reads %r, expected %r (selection %r)' % (
+                    k, rows[k] if k < len(rows) else None, want[k] if k < len(want) else None, getattr(self, 'sel', None)))
             return 0
         elif kind == 'message':
             _, cid, oid = op
@@ -426,8 +448,11 @@ def sink_machine(col, stage, tier):
             cid = data.draw(st.sampled_from(sorted(self.ex.open)))
             self._do(['message', cid, oid])
 
-        @rule(name=st.sampled_from(['A', 'B', 'C', 'all', 'all', 'D', 'Z']))
+        @rule(name=st.sampled_from(['A', 'B', 'C', 'all', 'all', 'D', 'Z', 'Q', 'b', 'nope']))
         def select(self, name): self._do(['select', name])
+
+        @rule()
+        def rows(self): self._do(['rows', None])
 
         def teardown(self):
             if self.reported or not self.case['ops']:
